@@ -311,10 +311,19 @@ class FloatEnumParam(Parameter):
         # trigger update of float parameter on change of enum parameter
         modobj.announceUpdate(self.name, getattr(modobj, self.name))
 
+    def trigger_index(self, modobj, value, err=None):
+        # a value not belonging to the current index was assigned to the float parameter
+        # (self.<name> = value): change the enum parameter to the closest allowed value,
+        # which triggers in turn the update of the float parameter
+        vdict = self.valuedict
+        if not err and value != vdict[modobj.parameters[self.idx_name].value]:
+            setattr(modobj, self.idx_name, min(vdict, key=lambda i: abs(vdict[i] - value)))
+
     def finish(self, modobj=None):
         """register callbacks for consistency"""
         super().finish(modobj)
         if modobj:
             modobj.addCallback(self.idx_name, self.trigger_setter, modobj)
+            modobj.addCallback(self.name, self.trigger_index, modobj)
             # start with the value belonging to the initial index
             self.value = self.valuedict[modobj.parameters[self.idx_name].value]
